@@ -70,6 +70,14 @@ func (r *Run) Paths(fn *Func) []Path {
 		return ps
 	}
 	all := r.E.Paths(fn)
+	for _, t := range r.E.Trunc {
+		if t == fn.Name {
+			// a rule is about to judge "every path" of a function whose paths were not all enumerated: what it
+			// would say is not a verdict
+			r.Undecide("engine", "path enumeration of %s exceeded its budget; the rules that judge every path of it cannot decide", fn.Name)
+			break
+		}
+	}
 	var out []Path
 	saved := r.P.cur
 	for i := range all {
@@ -399,6 +407,16 @@ func (r *Run) CheckT(rule, site string, ok bool, pos token.Pos, path *Path, form
 		r.Obs[len(r.Obs)-1].Trace = r.P.PathStr(*path)
 	}
 	return ok
+}
+
+// capPaths bounds the work of a per-path rule; a function with more paths than the bound is not judged on a
+// sample of them: the rule cannot decide.
+func (r *Run) capPaths(fn *Func, paths []Path, max int) []Path {
+	if len(paths) > max {
+		r.Undecide("engine", "%s has %d paths, more than the %d a per-path rule examines; the rule cannot decide", fn.Name, len(paths), max)
+		return paths[:max]
+	}
+	return paths
 }
 
 func (r *Run) Undecide(rule, format string, args ...any) {
